@@ -138,6 +138,48 @@ def receiver_before(code, dot):
     return text.lstrip("&*")
 
 
+def guard_form(code, start, end):
+    """how long the guard lives, from the shape of the statement around the lock call code[start:end]:
+    `let`   bound to a name (lives to the end of the block, or until dropped),
+    `head`  temporary in the head of a for / match / if let / while let (lives through the body),
+    `tmp`   temporary of an ordinary statement or expression (dropped at its end)"""
+    # statement start: previous ';', '{' or '}' outside any bracket
+    i, depth = start - 1, 0
+    while i >= 0:
+        c = code[i]
+        if c in ")]":
+            depth += 1
+        elif c in "([":
+            if depth == 0:
+                break
+            depth -= 1
+        elif c in ";{}" and depth == 0:
+            break
+        i -= 1
+    head = code[i + 1:start].strip()
+    # what follows the call up to the end of the statement
+    j, depth = end, 0
+    while j < len(code):
+        c = code[j]
+        if c in "([{":
+            depth += 1
+        elif c in ")]}":
+            if depth == 0:
+                break
+            depth -= 1
+        elif c == ";" and depth == 0:
+            break
+        j += 1
+    tail = re.sub(r"\s+", "", code[end:j])
+    first = re.match(r"[A-Za-z_]+", head)
+    kw = first.group(0) if first else ""
+    if kw == "let" and re.fullmatch(r"(\.unwrap\(\)|\?)*", tail) and i >= 0 and code[i] != "(":
+        return "let"
+    if kw in ("for", "match", "while") or head.startswith("if let") or (kw == "if" and "let " in head):
+        return "head"
+    return "tmp"
+
+
 def scan_file(path, rel):
     src = open(path, encoding="utf-8").read()
     code = blank_comments_and_strings(src)
@@ -220,12 +262,24 @@ def scan_file(path, rel):
                     j += 1
                 recv = re.sub(r"\s+", "", code[par + 1:j])
                 pos = m.start()
+                expr_start, expr_end = m.start(), j + 1
             else:
                 kind = m.group(3)
                 recv = receiver_before(code, m.start())
                 pos = m.start() + t.index(kind)
+                expr_end = m.end()
+                # start of the receiver expression in the code
+                k2, need = m.start(), len(recv)
+                while k2 > 0 and need > 0:
+                    k2 -= 1
+                    if not code[k2].isspace():
+                        need -= 1
+                while k2 > 0 and code[k2 - 1] in "&*":
+                    k2 -= 1
+                expr_start = k2
             ln, col = linecol(pos)
-            sites.append({"file": rel, "scope": scope, "kind": kind, "recv": recv, "line": ln, "col": col, "test": is_test})
+            sites.append({"file": rel, "scope": scope, "kind": kind, "recv": recv, "guard": guard_form(code, expr_start, expr_end),
+                          "line": ln, "col": col, "test": is_test})
     # ordinals within (file, scope)
     counts = {}
     for s in sites:
@@ -307,7 +361,7 @@ def main():
     if "--draft" in args:
         sites = []
         for s in inv:
-            e = {"key": s["key"], "kind": s["kind"], "recv": s["recv"]}
+            e = {"key": s["key"], "kind": s["kind"], "recv": s["recv"], "guard": s["guard"]}
             if s["test"]:
                 e.update({"cls": "-", "test": True})
             else:
@@ -328,8 +382,9 @@ def main():
             problems.append("table entry without a site in the source (removed or moved): %s" % t["key"])
             continue
         seen.add(t["key"])
-        if s["kind"] != t["kind"] or s["recv"] != t["recv"]:
-            problems.append("site changed: %s is now %s `%s` (table: %s `%s`) at %s:%d" % (t["key"], s["kind"], s["recv"], t["kind"], t["recv"], s["file"], s["line"]))
+        if s["kind"] != t["kind"] or s["recv"] != t["recv"] or s["guard"] != t.get("guard"):
+            problems.append("site changed: %s is now %s `%s` guard=%s (table: %s `%s` guard=%s) at %s:%d" % (
+                t["key"], s["kind"], s["recv"], s["guard"], t["kind"], t["recv"], t.get("guard"), s["file"], s["line"]))
         if bool(t.get("test")) != s["test"]:
             problems.append("site %s: test-only flag differs (source says %s)" % (t["key"], s["test"]))
         if not t.get("test") and not t.get("tool") and t["cls"] not in CLASSES:
